@@ -2,6 +2,7 @@ import TinsModel.Crypto.Handshake
 import TinsModel.Crypto.Hash
 import TinsModel.Crypto.Aes
 import TinsModel.Crypto.Spec
+import TinsModel.Crypto.SpecKdf
 import Driver.Util
 /- line-protocol driver for property C09 (WEP / TKIP / CCMP decryption): model mode and spec (oracle) mode -/
 namespace Driver.C09
@@ -66,6 +67,17 @@ def showEvents (ev : List Event) : String :=
     | .apFound ssid b => s!"ap:{toHex ssid}:{toHex b}"
     | .handshake ssid b c => s!"hs:{toHex ssid}:{toHex b}:{toHex c}")
 
+/-- the key-table entries announced by the handshake callbacks of a `decrypt` call -/
+def showLearned (keys : KeyTable) (ev : List Event) : String :=
+  let items := ev.filterMap fun
+    | .handshake _ b c =>
+      let p := makeAddrPair b c
+      some (match lookup keys p with
+        | some k => s!"{toHex p.1}{toHex p.2}:{if k.isCcmp then 1 else 0}:{toHex k.ptk}"
+        | none => s!"{toHex p.1}{toHex p.2}:none")
+    | _ => none
+  if items.isEmpty then "-" else joinWith "," items
+
 def showHandshakes (hs : List Handshake) : String :=
   if hs.isEmpty then "-" else
   joinWith "," (hs.map fun h =>
@@ -97,17 +109,18 @@ def step (st : MState) (line : String) : MState × String :=
       let st' := { st with wpa := { st.wpa with keys := addDecryptionKeys st.wpa.keys a b ⟨k, c == "1"⟩ } }
       (st', "ok keys=" ++ showKeys st'.wpa.keys)
     | _, _, _ => (st, "bad-op")
-  | "apdata" :: _psk :: ssid :: rest =>
-    match parseHex ssid, (kvOf rest "pmk").bind parseHex with
-    | some ssid, some pmk => ({ st with wpa := st.wpa.addApData ssid pmk }, "ok ev=-")
-    | _, _ => (st, "bad-op")
-  | "apaddr" :: _psk :: ssid :: a :: rest =>
-    match parseHex ssid, parseAddr a, (kvOf rest "pmk").bind parseHex with
-    | some ssid, some a, some pmk =>
-      match (st.wpa.addApData ssid pmk).addAccessPoint ssid a with
+  | "apdata" :: psk :: ssid :: rest =>
+    -- PBKDF2-HMAC-SHA1 is a parameter of the model: its value for this (psk, ssid) comes with the op line
+    match parseHex psk, parseHex ssid, (kvOf rest "pmk").bind parseHex with
+    | some psk, some ssid, some pmk => ({ st with wpa := st.wpa.addApDataPsk (fun _ _ _ _ => pmk) psk ssid }, "ok ev=-")
+    | _, _, _ => (st, "bad-op")
+  | "apaddr" :: psk :: ssid :: a :: rest =>
+    match parseHex psk, parseHex ssid, parseAddr a, (kvOf rest "pmk").bind parseHex with
+    | some psk, some ssid, some a, some pmk =>
+      match (st.wpa.addApDataPsk (fun _ _ _ _ => pmk) psk ssid).addAccessPoint ssid a with
       | some (w, ev) => ({ st with wpa := w }, "ok ev=" ++ showEvents ev)
       | none => (st, "throw runtime_error")
-    | _, _, _ => (st, "bad-op")
+    | _, _, _, _ => (st, "bad-op")
   | op :: f :: _ =>
     if op != "wep" && op != "wpa" then (st, "bad-op") else
     match parseHex f with
@@ -134,15 +147,22 @@ def step (st : MState) (line : String) : MState × String :=
             | _ => (st.cap, false)
           let hsTxt := s!" cap={if c2 then 1 else 0} hs={showHandshakes cap2.completed}"
           let st := { st with cap := { cap2 with completed := [] } }
+          -- what the parsers made of the frame
+          let parsedTxt : String := match parsed with
+            | .data fr => match fr.inner.findEapol with
+              | some e => s!" e={e.key.length}/{e.serialize.length}/{(fnv e.serialize).toNat}"
+              | none => ""
+            | .beacon a3 ssid => s!" b={toHex a3}/" ++ (match ssid with | some s => "s" ++ toHex s | none => "none")
+            | .notData => ""
           match wpa2Decrypt innerParser aes prf micf st.wpa parsed with
           | .ok (w, r, p', ev) =>
             let st' := { st with wpa := w }
-            let tail := hsTxt ++ s!" ev={showEvents ev} nk={w.keys.length}"
+            let tail := hsTxt ++ s!" ev={showEvents ev} nk={w.keys.length} lk={showLearned w.keys ev}" ++ parsedTxt
             match p' with
             | .data fr' => (st', showFrame (if r then "1" else "0") fr' ++ tail)
             | _ => (st', s!"r={if r then 1 else 0} nodata" ++ tail)
           | .throw e =>
-            let tail := hsTxt ++ s!" ev=- nk={st.wpa.keys.length}"
+            let tail := hsTxt ++ s!" ev=- nk={st.wpa.keys.length} lk=-" ++ parsedTxt
             match parsed with
             | .data fr => (st, showFrame ("throw:" ++ e.name) fr ++ tail)
             | _ => (st, s!"r=throw:{e.name} nodata" ++ tail)
@@ -168,6 +188,17 @@ The oracle re-derives the body with the Lean reference encryptor (`generator-cla
 structure OState where
   wep : List (Bytes × Bytes) := []
   keys : List ((Bytes × Bytes) × (Bytes × Bool)) := []
+  /-- networks registered with `add_ap_data`: ssid → PMK (the PBKDF2 value given on the op line; first registration counts) -/
+  pmks : List (Bytes × Bytes) := []
+  /-- access points whose network is known: bssid → (ssid, PMK) -/
+  aps : List (Bytes × (Bytes × Bytes)) := []
+  /-- position of every (access point, station) pair in the handshake grammar `Spec.Phase.next`, messages as frame bytes -/
+  phases : List ((Bytes × Bytes) × Spec.Phase Bytes) := []
+  /-- key-table entries the specification says are known by now (sorted pair → PTK, CCMP?) -/
+  expect : List ((Bytes × Bytes) × (Bytes × Bool)) := []
+  /-- a beacon-subtype frame the specification does not interpret (to/from-DS bits set) has been seen: libtins may know
+      access points the oracle does not, so the beacon clauses keep quiet from here on -/
+  oddBeacon : Bool := false
 
 def kv (ws : List String) (key : String) : Option String :=
   ws.findSome? (fun w => if w.startsWith (key ++ "=") then some ((w.drop (key.length + 1)).toString) else none)
@@ -283,6 +314,81 @@ def judge (st : OState) (op : String) (frame : Bytes) (ann : List String) (out :
     else "ok"
   | _, _, _ => "violates unparsable-output"
 
+/-- does an unprotected data frame carry the EAPOL EtherType anywhere behind its MAC header? -/
+def mightBeEapol (f : Bytes) : Bool :=
+  let rec has : Bytes → Bool
+    | a :: b :: r => (a == 0x88 && b == 0x8e) || has (b :: r)
+    | _ => false
+  (f.getD 0 0 >>> 2) &&& 3 == 2 && f.getD 1 0 &&& 0x40 == 0 && has (f.drop 24)
+
+/-- **Key management clauses** (theorems `handshake_complete_all_histories`, `keys_after_valid_history`,
+    `derive_keys_is_prf512`), evaluated on the frame bytes and the implementation's output alone:
+    the oracle follows every (access point, station) pair through the grammar ( M1⁺ [ M2⁺ [ M3⁺ [ M4⁺ ] ] ] )* and demands
+      handshake-complete : `process_packet` returns true exactly on a message 4 that completes an attempt, and hands over
+                           [last M1, first M2, first M3, M4] of that attempt;
+      keys-learned       : if the access point's network is known and the Key MIC of message 4 verifies under the KCK of
+                           PRF(PMK, "Pairwise key expansion", Min/Max addresses ‖ Min/Max nonces) — computed here from the
+                           specification — the handshake is reported and the key-table entry is exactly that PTK;
+                           if the MIC does not verify nothing is learned.
+    A pair whose messages leave the grammar gets no verdict until its next message 1. -/
+def hsClause (st : OState) (kf : Spec.KeyFrame) (out : String) : OState × String × Option ((Bytes × Bytes) × (Bytes × Bool)) :=
+  let pair := (kf.ap, kf.sta)
+  let ow := words out
+  let cap := (kv ow "cap").getD ""
+  let hsTxt := (kv ow "hs").getD ""
+  let ev := ((kv ow "ev").getD "").splitOn ","
+  let lk := ((kv ow "lk").getD "").splitOn ","
+  match Spec.msgOfInfo (Spec.keyInfoOf kf.eapol) with
+  | none => (st, "ok", none)
+  | some c =>
+    let dirOk := (c == .m1 || c == .m3) == kf.fromAp
+    let ph := (lookup st.phases pair).getD .start
+    if !dirOk then ({ st with phases := insertKV st.phases pair .start }, "unspecified", none) else
+    match ph.next c kf.eapol with
+    | none => ({ st with phases := insertKV st.phases pair .start }, "unspecified", none)
+    | some (ph', none) =>
+      ({ st with phases := insertKV st.phases pair ph' },
+        if cap == "0" then "ok" else s!"violates handshake-complete spurious cap={cap}", none)
+    | some (ph', some (f1, f2, f3, f4)) =>
+      let st := { st with phases := insertKV st.phases pair ph' }
+      let (lo, hi) := sortPair kf.ap kf.sta
+      let wantHs := s!"{toHex lo}{toHex hi}/4/{(fnv f1).toNat}/{(fnv f2).toNat}/{(fnv f3).toNat}/{(fnv f4).toNat}"
+      if cap != "1" then (st, s!"violates handshake-complete not-completed cap={cap}", none)
+      else if hsTxt != wantHs then (st, "violates handshake-complete wrong-messages", none)
+      else
+      match lookup st.aps kf.ap with
+      | none => (st, "ok", none)
+      | some (ssid, pmk) =>
+        let ver := Spec.descriptorVersion f4
+        if ver != 1 && ver != 2 then (st, "unspecified", none) else
+        match Spec.sessionKeys Hash.hmacSha1 Hash.hmacMd5 Hash.hmacSha1 pmk kf.ap kf.sta (Spec.field f3 .nonce)
+            (Spec.field f2 .nonce) ver f4 (Spec.field f4 .mic) with
+        | some (ptk, ccmp) =>
+          let st := { st with keys := insertKV st.keys (lo, hi) (ptk, ccmp), expect := insertKV st.expect (lo, hi) (ptk, ccmp) }
+          let wantEv := s!"hs:{toHex ssid}:{toHex kf.ap}:{toHex kf.sta}"
+          let wantLk := s!"{toHex lo}{toHex hi}:{if ccmp then 1 else 0}:{toHex ptk}"
+          let now := some ((lo, hi), (ptk, ccmp))
+          if !ev.contains wantEv then (st, "violates keys-learned handshake-not-reported", now)
+          else if !lk.contains wantLk then (st, "violates keys-learned ptk-is-not-the-prf-of-the-last-attempt", now)
+          else (st, "ok", now)
+        | none => (st, if ev.any (·.startsWith "hs:") then "violates keys-learned mic-does-not-verify" else "ok", none)
+
+/-- a beacon of a network registered with `add_ap_data` makes its BSSID known (once) -/
+def beaconClause (st : OState) (bssid : Bytes) (ssid : Option Bytes) (out : String) : OState × String :=
+  let ev := ((kv (words out) "ev").getD "").splitOn ","
+  let learned := match lookup st.aps bssid, ssid with
+    | none, some s => (lookup st.pmks s).map fun pmk => (s, pmk)
+    | _, _ => none
+  match learned with
+  | some (s, pmk) =>
+    ({ st with aps := (bssid, (s, pmk)) :: st.aps },
+      if st.oddBeacon then "unspecified"
+      else if ev.contains s!"ap:{toHex s}:{toHex bssid}" then "ok" else "violates access-point-not-learned-from-beacon")
+  | none => (st, if st.oddBeacon then "unspecified"
+      else if ev.any (·.startsWith "ap:") then "violates access-point-reported-without-reason" else "ok")
+
+def worse (a b : String) : String := if a.startsWith "violates" then a else if b.startsWith "violates" then b else if a == "ok" then b else a
+
 def specStep (st : OState) (line : String) : OState × String :=
   match line.splitOn " ||| " with
   | [opl, out] =>
@@ -291,8 +397,21 @@ def specStep (st : OState) (line : String) : OState × String :=
       | (a, []) => (a, [])
     match opw with
     | "case" :: _ => ({}, "ok")
-    | "apdata" :: _ => (st, "ok")
-    | "apaddr" :: _ => (st, "ok")
+    | "apdata" :: _psk :: ssid :: rest =>
+      match parseHex ssid, (kv rest "pmk").bind parseHex with
+      | some ssid, some pmk => ({ st with pmks := insertIfAbsent st.pmks ssid pmk }, "ok")
+      | _, _ => (st, "unspecified")
+    | "apaddr" :: _psk :: ssid :: a :: rest =>
+      match parseHex ssid, parseAddr a, (kv rest "pmk").bind parseHex with
+      | some ssid, some a, some pmk =>
+        let pmks := insertIfAbsent st.pmks ssid pmk
+        let st := { st with pmks := pmks }
+        match lookup pmks ssid, lookup st.aps a with
+        | some p, none =>
+          ({ st with aps := (a, (ssid, p)) :: st.aps },
+            if out.startsWith s!"ok ev=ap:{toHex ssid}:{toHex a}" then "ok" else "violates access-point-not-registered")
+        | _, _ => (st, "ok")
+      | _, _, _ => (st, "unspecified")
     | ["weppw", a, k] =>
       match parseAddr a, parseHex k with
       | some a, some k => ({ st with wep := insertKV st.wep a k }, "ok")
@@ -308,29 +427,47 @@ def specStep (st : OState) (line : String) : OState × String :=
         else ({ st with keys := insertKV st.keys (sortPair a b) (k, c == "1") }, "ok")
       | _, _, _ => (st, "unspecified")
     | ["keys"] =>
-      match ann with
-      | ["expect", entry] =>
-        match kv (words out) "keys" with
-        | some ks => (st, if (ks.splitOn ",").contains entry then "ok" else "violates learned-key-missing-or-wrong")
-        | none => (st, "violates unparsable-output")
-      | _ => (st, "ok")
+      match kv (words out) "keys" with
+      | none => (st, "violates unparsable-output")
+      | some ks =>
+        let have_ := ks.splitOn ","
+        -- every entry the specification derived from the histories seen so far is in the key table
+        let own := st.expect.all fun ((lo, hi), (ptk, c)) => have_.contains s!"{toHex lo}{toHex hi}:{if c then 1 else 0}:{toHex ptk}"
+        if !own then (st, "violates keys-learned key-table-entry-missing-or-wrong") else
+        match ann with
+        | ["expect", entry] => (st, if have_.contains entry then "ok" else "violates learned-key-missing-or-wrong")
+        | _ => (st, "ok")
     | [op, f] =>
       if op != "wep" && op != "wpa" then (st, "unspecified") else
       match parseHex f with
       | some frame =>
+        -- key management, from the frame bytes alone (a frame libtins refused to parse never reached the decrypter)
+        let (st, own, now) : OState × String × Option ((Bytes × Bytes) × (Bytes × Bool)) :=
+          if op != "wpa" || out.startsWith "parse-throw" then (st, "ok", none) else
+          match Spec.beaconOf frame with
+          | some (bssid, ssid) => let r := beaconClause st bssid ssid out; (r.1, r.2, none)
+          | none =>
+            match Spec.keyFrameOf frame with
+            | some kf => hsClause st kf out
+            | none =>
+              if mightBeEapol frame then ({ st with phases := [] }, "ok", none)
+              else if frame.getD 0 0 == 0x80 then ({ st with oddBeacon := true }, "unspecified", none)
+              else (st, "ok", none)
         match ann with
         | ["learn", a, b, k, c] =>
-          -- a valid handshake history for a known network ends here: the pair's keys must now be known
+          -- the generator's claim: a valid handshake history for a known network ends here with this PTK
           match parseAddr a, parseAddr b, parseHex k with
           | some a, some b, some k =>
-            let st' := { st with keys := insertKV st.keys (sortPair a b) (k, c == "1") }
-            let ev := (kv (words out) "ev").getD ""
-            (st', if (ev.splitOn ",").any (·.startsWith "hs:") then "ok" else "violates keys-not-learned")
+            -- only a cross-check of what the oracle derived itself from the frames of this case (a shrunk case may have
+            -- lost the frames that made the claim true: then the oracle has derived nothing and says nothing)
+            match now with
+            | some v => (st, worse own (if v == (sortPair a b, (k, c == "1")) then "ok" else "violates generator-claim learn"))
+            | none => (st, worse own "unspecified")
           | _, _, _ => (st, "violates bad-annotation")
         | ["nolearn"] =>
           let ev := (kv (words out) "ev").getD ""
-          (st, if (ev.splitOn ",").any (·.startsWith "hs:") then "violates keys-learned-with-wrong-psk" else "ok")
-        | _ => (st, judge st op frame ann out)
+          (st, worse own (if (ev.splitOn ",").any (·.startsWith "hs:") then "violates keys-learned-with-wrong-psk" else "ok"))
+        | _ => (st, worse own (judge st op frame ann out))
       | none => (st, "unspecified")
     | _ => (st, "unspecified")
   | _ => (st, "bad-line")
